@@ -17,7 +17,18 @@ def build(race=False):
         adds["client/lib/zz_verif_" + os.path.basename(f)] = f
     for f in glob.glob(os.path.join(hdir, "ttshim", "*.go")):
         adds["common/turbotunnel/zz_verif_" + os.path.basename(f)] = f
-    pkgs = ["server/lib", "common/turbotunnel"]
-    if os.path.isdir(cdir):
-        pkgs.append("client/lib")
-    return vlib.build_harness("serverlib", pkgs, "server/lib", hf, adds=adds, race=race)
+    pkgs = ["server/lib", "common/turbotunnel", "client/lib"]
+    # retype pre-pass: WebRTCPeer's transport and pipes become interfaces (see clientshim/shim.go)
+    work = vlib.workdir("serverlib" + ("-race" if race else ""))
+    src = open(os.path.join(vlib.REPO, "client/lib/webrtc.go")).read()
+    for old, new in (("transport *webrtc.DataChannel", "transport verifTransport"),
+                     ("recvPipe  *io.PipeReader", "recvPipe  verifPipeReader"),
+                     ("writePipe *io.PipeWriter", "writePipe verifPipeWriter")):
+        if src.count(old) != 1:
+            raise vlib.EngineError("client/lib/webrtc.go: declaration %r not found exactly once; update the retype pre-pass" % old)
+        src = src.replace(old, new)
+    retyped = os.path.join(work, "webrtc_retyped.go")
+    open(retyped, "w").write(src)
+    adds["client/lib/webrtc.go"] = retyped
+    return vlib.build_harness("serverlib", pkgs, "server/lib", hf, adds=adds, race=race,
+                              captures=["client/lib:newSession:dialContext,clientID"])
